@@ -253,6 +253,9 @@ def unwrap(f):
     while True:
         if isinstance(f, (staticmethod, classmethod)):
             f = f.__func__
+        elif isinstance(f, types.MethodType) and isinstance(f.__self__, type):
+            # bound classmethod (e.g. from super().from_obj): the model is registered for the underlying function
+            f = f.__func__
         elif hasattr(f, "__wrapped__"):
             f = f.__wrapped__
         else:
